@@ -2,7 +2,7 @@
 # usage: tools/confirm_seed.sh <id> <src-dir with patch.diff demo_test.go meta.json> <demo -run regex> <existing-tests -run regex>
 # Confirms a seeded change in a scratch worktree of /repo HEAD: applies, builds, demo FAILS with it and PASSES without it,
 # the given subset of the existing tests still passes with it. Writes /verif/seeded/<id>/{patch.diff,demo_test.go,meta.json,confirm.log}.
-id=$1; src=$2; demo=$3; existing=$4
+id=$1; src=$2; demo=$3; existing=$4; pkg=${5:-actor}
 export GOFLAGS="-mod=mod -p=4" GOPROXY=off
 wt=/tmp/wt/seedconf-$id
 out=/verif/seeded/$id
@@ -13,14 +13,14 @@ git -C /repo worktree remove --force $wt 2>/dev/null
 git -C /repo worktree add -q -f $wt HEAD || exit 2
 cd $wt
 if ! git apply $src/patch.diff 2>>$log; then echo "RESULT $id: patch does not apply to /repo HEAD" | tee -a $log; git -C /repo worktree remove --force $wt; exit 1; fi
-cp $src/demo_test.go actor/zz_seed_demo_test.go
+cp $src/demo_test.go $pkg/zz_seed_demo_test.go
 go build ./... >>$log 2>&1 && echo "build with patch: ok" >>$log || echo "build with patch: FAILED" >>$log
-go test -vet=off -count=1 -run "$demo" ./actor/ >$out/.demo_with.txt 2>&1; rc_with=$?
+go test -vet=off -count=1 -run "$demo" ./$pkg/ >$out/.demo_with.txt 2>&1; rc_with=$?
 tail -5 $out/.demo_with.txt >>$log
-go test -vet=off -count=1 -run "$existing" -skip "TestNonBlockingBoundedMailbox/With_concurrent|$demo" ./actor/ >$out/.existing.txt 2>&1; rc_ex=$?
+go test -vet=off -count=1 -run "$existing" -skip "TestNonBlockingBoundedMailbox/With_concurrent|$demo" ./$pkg/ >$out/.existing.txt 2>&1; rc_ex=$?
 grep -E "^(--- FAIL|FAIL|ok)" $out/.existing.txt | head -10 >>$log
 git checkout -q -- . 
-go test -vet=off -count=1 -run "$demo" ./actor/ >$out/.demo_without.txt 2>&1; rc_without=$?
+go test -vet=off -count=1 -run "$demo" ./$pkg/ >$out/.demo_without.txt 2>&1; rc_without=$?
 tail -3 $out/.demo_without.txt >>$log
 echo "RESULT $id: demo_with_patch_exit=$rc_with (want !=0) demo_without_patch_exit=$rc_without (want 0) existing_tests_with_patch_exit=$rc_ex (want 0)" | tee -a $log
 cp $src/patch.diff $src/demo_test.go $out/
@@ -28,7 +28,7 @@ python3 - "$src/meta.json" "$out/meta.json" "$rc_with" "$rc_without" "$rc_ex" "$
 import json,sys
 m=json.load(open(sys.argv[1]))
 m["confirmed_by_coordinator"]={"demo_with_patch_exit":int(sys.argv[3]),"demo_without_patch_exit":int(sys.argv[4]),"existing_subset_with_patch_exit":int(sys.argv[5]),
-  "commands":["git apply patch.diff (scratch worktree of /repo HEAD)","go build ./...","go test -vet=off -count=1 -run '%s' ./actor/ (with and without the patch)"%sys.argv[6],"go test -vet=off -count=1 -run '%s' ./actor/ (with the patch)"%sys.argv[7]]}
+  "commands":["git apply patch.diff (scratch worktree of /repo HEAD)","go build ./...","go test -vet=off -count=1 -run '%s' ./$pkg/ (with and without the patch; package given on the command line)"%sys.argv[6],"go test -vet=off -count=1 -run '%s' ./$pkg/ (with the patch)"%sys.argv[7]]}
 json.dump(m,open(sys.argv[2],"w"),indent=1)
 PY
 rm -f $out/.demo_with.txt $out/.demo_without.txt $out/.existing.txt
